@@ -609,6 +609,10 @@ pub fn build_synth(seed: u64) -> Option<SynthArena> {
         arena.write(b, &[0x31, 0xC0, 0xC3]);
         slots.push((b, 0, false));
     }
+    // entries that are not even word aligned (hand-written assembly, -Os libraries): 1, 2, 3, 5, 6, 7 mod 8
+    for (k, off) in [1usize, 2, 3, 5, 6, 7].iter().enumerate() {
+        put!(base + PAGE + 0x200 + 0x20 * k + off, 0x2400 + k as u32, false, 12, &mut rng);
+    }
     // last 16 bytes of the mapping
     put!(base + 2 * PAGE - 16, 0x2200, false, 16, &mut rng);
     // first bytes of the mapping
